@@ -94,7 +94,7 @@ pub fn strip_ansi(s: &str) -> String {
 // ------------------------------------------------------------ layout phase
 
 fn layout_script(p: &mut Prng) -> String {
-    let o = GenOpts { exotic: true };
+    let o = GenOpts { exotic: true, host: false };
     let n = 2 + p.below(5) as usize;
     let env = gen_env(p, n, &o);
     let mut s = decl_src(&env);
